@@ -329,6 +329,9 @@ func (s *Store[K, V]) GetWithSecodary(key K) (V, bool, error) {
 		// load and store should be atomic
 		shard.mu.Lock()
 		defer shard.mu.Unlock()
+		// once the lock is released the key can be updated or deleted again,
+		// callers arriving after that must not share this call's result
+		defer shard.vgroup.Forget(key)
 		if shard.closed {
 			return v, &NotFound{}
 		}
@@ -1256,6 +1259,9 @@ func (s *LoadingStore[K, V]) Get(ctx context.Context, key K) (V, error) {
 			// load and store should be atomic
 			shard.mu.Lock()
 			defer shard.mu.Unlock()
+			// once the lock is released the key can be updated or deleted again,
+			// callers arriving after that must not share this call's result
+			defer shard.group.Forget(key)
 			if shard.closed {
 				return Loaded[V]{}, ErrCacheClosed
 			}
